@@ -115,13 +115,13 @@ def _exec_one(conn, b):
                     if b.returns_rows:
                         if b.unique:
                             r = r.unique()
-                        rows = [G.norm(x) for x in r.all()]
+                        rows = [G.norm(x) for x in _bounded_all(r)]
                         out = ("rows", b.total, rows)
                     s.commit()
                     return out
             r = conn.execute(b.stmt, b.params) if b.params is not None else conn.execute(b.stmt)
             if b.returns_rows:
-                return ("rows", b.total, [tuple(x) for x in r.all()])
+                return ("rows", b.total, [tuple(x) for x in _bounded_all(r)])
             return ("ok",)
     except sa_exc.SQLAlchemyError as e:
         msg = str(e).split("\n")[0][:200]
@@ -136,6 +136,22 @@ def _cmp_result(a, b):
             return a[2] == b[2]
         return sorted(map(repr, a[2])) == sorted(map(repr, b[2]))
     return a == b
+
+
+ROW_CAP = 3000
+
+
+class _TooLarge(Exception):
+    """a generated statement whose result exceeds ROW_CAP rows (an unconstrained many-way join): a history executes every sibling
+    four times, so such a case would cost minutes without exercising the cache any differently; counted as a generator rejection"""
+
+
+def _bounded_all(r):
+    rows = r.fetchmany(ROW_CAP + 1)
+    if len(rows) > ROW_CAP:
+        r.close()
+        raise _TooLarge()
+    return rows
 
 
 class _Engine:
@@ -316,10 +332,14 @@ def check_history(case, ctx):
         e_warm = _Engine(case["data"])
         engines.append(e_warm)
 
-        r_off = e_off.run(_build_all(case, sibs))
-        r_cold = e_cold.run(_build_all(case, sibs))
-        e_warm.run(_build_all(case, sibs), order=perm)  # warm-up with sibling objects of its own, rolled back
-        r_warm = e_warm.run(_build_all(case, sibs))
+        try:
+            r_off = e_off.run(_build_all(case, sibs))
+            r_cold = e_cold.run(_build_all(case, sibs))
+            e_warm.run(_build_all(case, sibs), order=perm)  # warm-up with sibling objects of its own, rolled back
+            r_warm = e_warm.run(_build_all(case, sibs))
+        except _TooLarge:
+            ctx.note(case, False, classes=["rejected:result-over-%d-rows" % ROW_CAP])
+            return
 
         # ---- classification
         hit_cold = sum(1 for r in r_cold if "CACHE_HIT" in r[1])
